@@ -6,10 +6,12 @@ from vf.props import apigen as ag
 PN = {0: "znx_small_single_product", 1: "svp_prepare+svp_apply_dft+idft", 2: "vmp_prepare+vmp_apply_dft+idft_tmp_a", 3: "vmp_prepare+vec_znx_dft+vmp_apply_dft_to_dft+idft_tmp_a"}
 
 
-def prod_ob(tdir, path, nn, avx, rsz=1, asz=1, asl=None, nrows=1, ncols=1, tmpa=False, timeout=None, tag="", toffs=0):
+def prod_ob(tdir, path, nn, avx, rsz=1, asz=1, asl=None, nrows=1, ncols=1, tmpa=False, timeout=None, tag="", toffs=0, palias=0):
     d = {"PATH": path, "NN": nn, "MM": nn // 2, "AVX": avx, "RSZ": rsz, "ASZ": asz, "ASL": asl if asl is not None else nn, "NROWS": nrows, "NCOLS": ncols}
     if toffs:
         d["TOFFS"] = toffs
+    if palias:
+        d["PALIAS"] = palias
     if tmpa:
         d["TMPA"] = None
     name = "%s%s/N=%d/avx=%d" % (tag, PN[path], nn, avx)
@@ -23,6 +25,8 @@ def prod_ob(tdir, path, nn, avx, rsz=1, asz=1, asl=None, nrows=1, ncols=1, tmpa=
         name += "/asl=N+%d" % (d["ASL"] - nn)
     if toffs:
         name += "/scratch+%dB" % (8 * toffs)
+    if palias:
+        name += "/res==%s" % ("a" if palias == 1 else "b")
     import struct
     na = (1 if path == 0 else asz) * nn
     nb = nn if path <= 1 else nrows * ncols * nn
@@ -63,6 +67,11 @@ def obligations(ctx):
         for (rsz, asz) in ((2, 1), (1, 2), (2, 2), (3, 2)):
             for avx in (0, 1):
                 obs.append(prod_ob(t, 1, nn, avx, rsz, asz, asl=nn + 1, tmpa=(rsz + asz + avx) % 2 == 0))
+    # the small product written over one of its operands (the library converts both operands into scratch before anything is written)
+    for nn in (4, 16):
+        for avx in (0, 1):
+            for pal in (1, 2):
+                obs.append(prod_ob(t, 0, nn, avx, palias=pal))
     # "output rows beyond the input size are exactly zero" (bit-precise, outputs prefilled with arbitrary data), empty input included
     for nn in (4, 16):
         for avx in (0, 1):
